@@ -3,6 +3,7 @@ let () =
   let rec opts = function
     | "--thr" :: v :: r -> D_static.thr := int_of_string v; opts r
     | "--max-n" :: v :: r -> D_spec.max_n := int_of_string v; opts r
+    | "--equiv-max-n" :: v :: r -> D_equiv.max_n := int_of_string v; opts r
     | _ :: r -> opts r
     | [] -> ()
   in
@@ -11,4 +12,6 @@ let () =
   | _ :: "store" :: path :: _ -> D_store.run path
   | _ :: "static" :: path :: _ -> D_static.run path
   | _ :: "spec" :: path :: _ -> D_spec.run path
+  | _ :: "equiv" :: path :: _ -> D_equiv.run path
+  | _ :: "equiv-spec" :: path :: _ -> D_equiv.run_spec path
   | _ -> prerr_endline "usage: driver <mode> <cases-file> [--thr N]"; exit 2
